@@ -40,6 +40,13 @@ class Box(typing.Generic[T]):
 class NoHints:
     def __init__(self, *a, **k):
         pass
+AliasT = typing.TypeAliasType("AliasT", T)
+NewT = typing.NewType("NewT", T)
+NewTB = typing.NewType("NewTB", TB)
+@dataclasses.dataclass
+class GenDC(typing.Generic[T, TB]):
+    item: typing.Final[T] = None
+    n: TB = 0
 '''
 MODNAME = "tlg_c15"
 UTC = datetime.timezone.utc
@@ -56,6 +63,8 @@ ATOMS = [
     ("Callable", "typing.Callable", "pass"), ("Callable1", "typing.Callable[[int], str]", "pass"), ("CallableE", "typing.Callable[..., int]", "pass"),
     ("type_int", "type[int]", "pass"), ("Type_DC", "typing.Type[DC]", "pass"),
     ("Box", "Box", "box"), ("Box_int", "Box[int]", "build"), ("NoHints", "NoHints", "build"),
+    # a type variable hidden behind a wrapper
+    ("Final_T", "typing.Final[T]", "pass"), ("AliasT", "AliasT", "pass"), ("NewT", "NewT", "pass"), ("NewTB", "NewTB", "conv"), ("GenDC", "GenDC", "gendc"),
 ]
 E8 = ["int", "DC", "Any", "object", "list", "T", "Callable1", "Box_int"]
 UNARY = ("list", "set", "vtuple", "opt", "dict", "dvt")
@@ -86,7 +95,7 @@ def probe(t, ns, S):
     """(input, expected unmarshal result, value for marshal, expected marshal output) for the pass-through clause."""
     if t[0] == "atom":
         name, _, kind = ATOMS[t[1]]
-        if name in ("int", "TB", "TC"):
+        if name in ("int", "TB", "TC", "NewTB"):
             return "7", 7, 7, 7
         if name == "str":
             return 7, "7", "7", "7"
@@ -110,6 +119,8 @@ def probe(t, ns, S):
                 return frozenset({S}), frozenset({S}), frozenset({S}), [S]
         if kind == "box":
             return {"item": S}, ns["Box"](S), ns["Box"](S), {"item": S}
+        if kind == "gendc":
+            return {"item": S, "n": "7"}, ns["GenDC"](S, 7), ns["GenDC"](S, 7), {"item": S, "n": 7}
         raise Unjudged(name)
     if t[0] == "un":
         f = t[1]
